@@ -1612,3 +1612,167 @@ Lemma old_compression_variable_shared_refuted :
   (let '(st, xs) := write_cfields true [gA; gA; rA (CCont 3); rA (CCont 3)] st0 in map snd xs) =
   [Some 3%nat; Some 3%nat; Some 5%nat; Some 5%nat].
 Proof. repeat split; vm_compute; reflexivity. Qed.
+
+(* ================================================================ Part 7: per-field writer state *)
+(* The variables a field gets do not depend on the mapping left by the fields
+   written before it. *)
+Lemma cfield2_state_independent : forall cf st s1 s2,
+  fst (fst (write_cfield2 true cf st s1)) = fst (fst (write_cfield2 true cf st s2)) /\
+  snd (write_cfield2 true cf st s1) = snd (write_cfield2 true cf st s2).
+Proof. intros. split; reflexivity. Qed.
+
+Lemma cfields2_state_independent : forall cfs st s1 s2,
+  fst (fst (write_cfields2 true cfs st s1)) = fst (fst (write_cfields2 true cfs st s2)) /\
+  snd (write_cfields2 true cfs st s1) = snd (write_cfields2 true cfs st s2).
+Proof.
+  intros [|cf r] st s1 s2; simpl; [split; reflexivity|].
+  change (write_cfield2 true cf st s2) with (write_cfield2 true cf st s1).
+  split; reflexivity.
+Qed.
+
+(* every gathered item of a field - its data, its constructs - uses one list
+   on one group of axes (otherwise the field is damaged in a file of its own:
+   the second list variable over the same dimensions is never written) *)
+Definition data_g (cf : cfield) : list (Z * nat * nat) :=
+  match cf_c cf with Some (CGath t p n) => [(t, p, n)] | _ => [] end.
+Definition all_g (cf : cfield2) : list (Z * nat * nat) :=
+  data_g (c2_f cf) ++ map (fun it => (gi_t it, gi_p it, gi_n it)) (c2_g cf).
+Definition g_ok (cf : cfield2) : Prop := forall x y, In x (all_g cf) -> In y (all_g cf) -> x = y.
+
+Definition lcomp (t : Z) : comp := mkC KList t [] None.
+
+Definition SM (vtab : list ventry) (s : smap) (t : Z) (m : list dimid) : Prop :=
+  forall e, In e s -> fst e = m /\ holds vtab (snd e) (lcomp t) m.
+
+Lemma SM_ext : forall st st' s t m, Ext st st' -> SM (vt st) s t m -> SM (vt st') s t m.
+Proof. intros st st' s t m E H e He. destruct (H e He). split; auto. eapply holds_ext; eauto. Qed.
+
+Lemma write_gitems_ok : forall dims l st s st' s' vs t p n,
+  Inv st -> SM (vt st) s t (gdims p n dims) ->
+  (forall it, In it l -> (gi_t it, gi_p it, gi_n it) = (t, p, n)) ->
+  write_gitems dims l st s = (st', s', vs) ->
+  Inv st' /\ Ext st st' /\ length vs = length l /\
+  Forall (fun v => holds (vt st') v (lcomp t) (gdims p n dims)) vs.
+Proof.
+  intros dims l. induction l as [|it r IH]; intros st s st' s' vs t p n HI HS Hall H; simpl in H.
+  - inversion H; subst. splits; auto. apply Ext_refl.
+  - assert (Eit : (gi_t it, gi_p it, gi_n it) = (t, p, n)) by (apply Hall; left; reflexivity).
+    assert (E1 : gi_t it = t) by (inversion Eit; reflexivity).
+    assert (E2 : gi_p it = p) by (inversion Eit; reflexivity).
+    assert (E3 : gi_n it = n) by (inversion Eit; reflexivity).
+    rewrite E1, E2, E3 in H. clear E1 E2 E3 Eit.
+    assert (Hr : forall it0, In it0 r -> (gi_t it0, gi_p it0, gi_n it0) = (t, p, n)) by (intros; apply Hall; right; assumption).
+    unfold sm_get in H.
+    destruct (find (fun e => dims_eqb (gdims p n dims) (fst e)) s) as [e|] eqn:Fd.
+    + destruct (write_gitems dims r st s) as [[st2 s2] vs2] eqn:W. inversion H; subst; clear H.
+      apply find_some in Fd as [Hin _]. destruct (HS e Hin) as [_ Hh].
+      destruct (IH _ _ _ _ _ _ _ _ HI HS Hr W) as (I2 & E2' & L2 & F2).
+      splits; auto; [simpl; congruence|]. constructor; [eapply holds_ext; eauto|exact F2].
+    + destruct (write_cvar true (mkC KList t [] None) (gdims p n dims) st) as [st1 v] eqn:WC.
+      destruct (write_gitems dims r st1 ((gdims p n dims, v) :: s)) as [[st2 s2] vs2] eqn:W. inversion H; subst; clear H.
+      assert (NK : ck (mkC KList t [] None) <> KAnc) by (simpl; discriminate).
+      destruct (inv_write_cvar _ _ _ _ _ _ HI NK WC) as (I1 & X1 & nd & Hh & Hn).
+      specialize (Hn eq_refl). subst nd.
+      assert (S1 : SM (vt st1) ((gdims p n dims, v) :: s) t (gdims p n dims)).
+      { intros e [<-|He]; simpl; [split; [reflexivity|exact Hh]|]. eapply SM_ext; eauto. }
+      destruct (IH _ _ _ _ _ _ _ _ I1 S1 Hr W) as (I2 & E2' & L2 & F2).
+      splits; auto; [eapply Ext_trans; eauto|simpl; congruence|].
+      constructor; [eapply holds_ext; eauto|exact F2].
+Qed.
+
+(* what the file says about the list variables of a field's gathered constructs *)
+Definition gitems_own (st : wst) (cf : cfield2) (x : fout * option nat * list nat) : Prop :=
+  Forall2 (fun it v => vtok st v = gi_t it /\
+                       cvar_meaning st v = gdims (gi_p it) (gi_n it) (o_dims (fst (fst x)))) (c2_g cf) (snd x).
+
+Definition gitems_held (vtab : list ventry) (cf : cfield2) (x : fout * option nat * list nat) : Prop :=
+  Forall2 (fun it v => holds vtab v (lcomp (gi_t it)) (gdims (gi_p it) (gi_n it) (o_dims (fst (fst x))))) (c2_g cf) (snd x).
+
+Lemma gitems_held_ext : forall st st' cf x, Ext st st' -> gitems_held (vt st) cf x -> gitems_held (vt st') cf x.
+Proof. intros st st' cf x E H. unfold gitems_held in *. induction H; constructor; auto. eapply holds_ext; eauto. Qed.
+
+Lemma inv_write_cfield2 : forall cf st s st' s' x,
+  Inv st -> g_ok cf -> write_cfield2 true cf st s = (st', s', x) ->
+  Inv st' /\ Ext st st' /\ gitems_held (vt st') cf x.
+Proof.
+  intros cf st s st' s' x HI G H. unfold write_cfield2 in H.
+  destruct (write_cfield true (c2_f cf) st) as [st1 [o ov]] eqn:WF.
+  destruct (inv_write_cfield _ _ _ _ _ HI WF) as (I1 & E1 & CV).
+  destruct (write_gitems (o_dims o) (c2_g cf) st1 _) as [[st2 s2] vs] eqn:WG in H.
+  inversion H; subst; clear H. unfold gitems_held. simpl.
+  destruct (c2_g cf) as [|it0 r0] eqn:Eg.
+  { simpl in WG. inversion WG; subst. splits; auto. }
+  (* the common (t, p, n) *)
+  set (t := gi_t it0). set (p := gi_p it0). set (n := gi_n it0).
+  assert (Hall : forall it, In it (it0 :: r0) -> (gi_t it, gi_p it, gi_n it) = (t, p, n)).
+  { intros it Hit. apply G; unfold all_g; apply in_or_app; right; rewrite Eg; apply in_map_iff.
+    - exists it. auto.
+    - exists it0. split; [reflexivity|left; reflexivity]. }
+  assert (S1 : SM (vt st1) (match cf_c (c2_f cf), ov with
+                           | Some (CGath t p n), Some v => (gdims p n (o_dims o), v) :: []
+                           | _, _ => [] end) t (gdims p n (o_dims o))).
+  { unfold cvar_ok in CV. simpl in CV.
+    destruct (cf_c (c2_f cf)) as [cs|] eqn:Ec; [|destruct ov; intros e0 []].
+    destruct ov as [v|]; [|destruct cs; intros e0 []].
+    destruct cs as [t' p' n'| |]; try (intros e0 []; fail).
+    assert (Ed : (t', p', n') = (t, p, n)).
+    { apply G; unfold all_g, data_g; apply in_or_app; [left; rewrite Ec; left; reflexivity|].
+      right. rewrite Eg. left. reflexivity. }
+    inversion Ed; subst t' p' n'.
+    destruct CV as (nd & Hh & Hn). specialize (Hn eq_refl). subst nd.
+    intros e0 [<-|[]]. simpl. split; [reflexivity|exact Hh]. }
+  destruct (write_gitems_ok _ _ _ _ _ _ _ _ _ _ I1 S1 Hall WG) as (I2 & E2 & L2 & F2).
+  splits; auto; [eapply Ext_trans; eauto|].
+  clear - F2 L2 Hall. revert vs F2 L2. generalize (it0 :: r0) as l, Hall. clear.
+  induction l as [|it r IH]; intros Hall vs F L; destruct vs; simpl in *; try discriminate; constructor.
+  - inversion F; subst. assert (E : (gi_t it, gi_p it, gi_n it) = (t, p, n)) by (apply Hall; left; reflexivity).
+    inversion E as [[A B C]]. rewrite A, B, C. assumption.
+  - inversion F; subst. apply IH; auto; intros; apply Hall; right; assumption.
+Qed.
+
+Lemma inv_write_cfields2 : forall cfs st s st' s' xs,
+  Inv st -> Forall g_ok cfs -> write_cfields2 true cfs st s = (st', s', xs) ->
+  Inv st' /\ Ext st st' /\ Forall2 (gitems_held (vt st')) cfs xs.
+Proof.
+  induction cfs as [|cf r IH]; intros st s st' s' xs HI G H; simpl in H.
+  - inversion H; subst. splits; auto. apply Ext_refl.
+  - destruct (write_cfield2 true cf st s) as [[st1 s1] x] eqn:W.
+    destruct (write_cfields2 true r st1 s1) as [[st2 s2] xs'] eqn:R. inversion H; subst; clear H.
+    inversion G; subst.
+    destruct (inv_write_cfield2 _ _ _ _ _ _ HI H1 W) as (I1 & E1 & F1).
+    destruct (IH _ _ _ _ _ I1 H2 R) as (I2 & E2 & F2).
+    splits; auto; [eapply Ext_trans; eauto|]. constructor; [eapply gitems_held_ext; eauto|exact F2].
+Qed.
+
+(* With the mapping reset per field, the list variable every gathered
+   construct of every field is written on holds the construct's own list and
+   refers to the construct's own dimensions, whatever was written before. *)
+Lemma gathered_constructs_own : forall cfs st s xs,
+  Forall g_ok cfs -> write_cfields2 true cfs st0 [] = (st, s, xs) -> Forall2 (gitems_own st) cfs xs.
+Proof.
+  intros cfs st s xs G H. destruct (inv_write_cfields2 _ _ _ _ _ _ Inv_st0 G H) as (_ & _ & F).
+  eapply Forall2_impl'; [|exact F]. intros cf x Hx. unfold gitems_held, gitems_own in *.
+  eapply Forall2_impl'; [|exact Hx]. intros it v (ve & N & C & D & _).
+  apply eq_content_iff in C as (T & _). unfold vtok, cvar_meaning, vnd. rewrite N. simpl in T. split; congruence.
+Qed.
+
+(* the carried-over variant: a field with gathered data, then a field with
+   uncompressed data and a construct gathered over the same dimensions with
+   another list of the same length *)
+Definition pA : cfield2 :=
+  mkCF2 (mkCF (mkField [3; 4] [Some (mkI [] 10 None); Some (mkI [] 14 None)] [] [] [] [] [] None [])
+              (Some (CGath 5 0 2))) [].
+Definition pB : cfield2 :=
+  mkCF2 (mkCF (mkField [3; 4] [Some (mkI [] 10 None); Some (mkI [] 14 None)] [] [] [] [] [] None []) None)
+        [mkGI 6 0 2].
+
+Definition gown_all (rs : bool) (cfs : list cfield2) : bool :=
+  let '(st, _, xs) := write_cfields2 rs cfs st0 [] in
+  forallb (fun q => forallb (fun iv => Z.eqb (vtok st (snd iv)) (gi_t (fst iv)))
+                            (combine (c2_g (fst q)) (snd (snd q)))) (combine cfs xs).
+
+Lemma carried_over_mapping_refuted :
+  gown_all false [pA; pB] = false /\ gown_all false [pB; pA] = true /\
+  gown_all true [pA; pB] = true /\ gown_all true [pB; pA] = true /\
+  snd (write_cfields2 false [pA; pB] st0 []) <> snd (write_cfields2 true [pA; pB] st0 []).
+Proof. repeat split; try (vm_compute; reflexivity). vm_compute. discriminate. Qed.
